@@ -15,6 +15,7 @@ structure Url where
   rawPath : String := ""    -- the original encoding when it is not the default one
   rawQuery : String := ""
   forceQuery : Bool := false
+  omitHost : Bool := false  -- set by Parse for "scheme:/path" (no authority): String() then writes no "//"
   fragment : String := ""   -- decoded
   rawFragment : String := ""
   deriving Repr, DecidableEq, Inhabited
@@ -133,8 +134,32 @@ def getScheme (s : Cs) : Res (Cs × Cs) :=
 
 def hasCTL (s : Cs) : Bool := s.any fun c => c.toNat < 0x20 || c.toNat == 0x7f
 
+/-- net/url validOptionalPort: "" or ":" followed by digits -/
+def validOptionalPort (p : Cs) : Bool :=
+  p.isEmpty || (p.head? == some ':' && (p.drop 1).all isDigit)
+
+/-- the %XY escapes net/url's unescape accepts in host mode: valid hex, and either %25 or a byte >= 0x80 -/
+def hostEscapesOk : Cs → Bool
+  | [] => true
+  | '%' :: a :: b :: rest =>
+    match hexVal a, hexVal b with
+    | some x, some _ => (x ≥ 8 || (a == '2' && b == '5')) && hostEscapesOk rest
+    | _, _ => false
+  | '%' :: _ => false
+  | _ :: rest => hostEscapesOk rest
+
+/-- net/url parseHost (validation part): a bracketed literal needs its `]` and a valid optional port after it, otherwise
+    whatever follows the last colon must be a valid port; every ASCII character must be one that needs no escaping in a host. -/
 def validHost (h : Cs) : Bool :=
-  h.all fun c => isAlpha c || isDigit c || "-._~:[]!$&'()*+,;=%".toList.contains c
+  (if h.head? == some '[' then
+     match cutLast ']' h with
+     | none => false
+     | some (_, after) => validOptionalPort after
+   else
+     match cutLast ':' h with
+     | none => true
+     | some (_, after) => validOptionalPort (':' :: after)) &&
+  h.all (fun c => c == '%' || c.toNat ≥ 0x80 || !shouldEscape c .host) && hostEscapesOk h
 
 def isPrefix (p s : Cs) : Bool := p.isPrefixOf s
 
@@ -168,6 +193,7 @@ def parseNoFrag (raw : Cs) : Res Url :=
           | some u' => .ok u'
           | none => .err
     else
+      let u := if u.scheme != "" && isPrefix ['/'] rest then { u with omitHost := true } else u
       match setPath u rest with
       | some u' => .ok u'
       | none => .err
@@ -250,7 +276,8 @@ def toString (u : Url) : String :=
     else
       let s :=
         if u.scheme != "" || u.host != "" then
-          if u.host != "" || u.path != "" then s ++ "//" ++ escape u.host .host else s
+          if u.omitHost && u.host == "" then s
+          else if u.host != "" || u.path != "" then s ++ "//" ++ escape u.host .host else s
         else s
       let p := escapedPath u
       let s := if p != "" && p.toList.head? != some '/' && u.host != "" then s ++ "/" else s
